@@ -549,5 +549,11 @@ func extractC04() *lean {
 	}
 	l.def("middlewareHandlerBody", "String", fmt.Sprintf("%q", hb), hb)
 	l.def("middlewareHandlerReceiver", "String", fmt.Sprintf("%q", hrecv), hrecv)
+	// ---------------- engine.go matchesPath, verbatim: a plain prefix test, nothing is trimmed or stripped from its input before it
+	mpBody := "MISSING"
+	if fd := funcDecl(eng, "matchesPath"); fd != nil {
+		mpBody = strings.Join(strings.Fields(c04Src(fd.Body)), " ")
+	}
+	l.def("matchesPathBody", "String", fmt.Sprintf("%q", mpBody), mpBody)
 	return l
 }
